@@ -213,7 +213,7 @@ def c03_scenario(kind="new type", fmt="stream"):
     D = _descs()
     a, a2, b = D["A"](n=1), D["A2"](s="x"), D["B"](s="b")
     pre = {"new type": [], "known type": [a], "same name registered": [a2], "nested, nothing known": [], "nested, holder known": [D["N"](r=None, rs=[])], "nested, inner known": [a, b],
-           "grouped, nothing known": [], "grouped, one member known": [a], "grouped, same names registered": [a, D["B"].__class__("c03/b", [("varint", "zz")])(zz=1)], "grouped twice, other members": [GroupedRecord("c03/grp", [D["G1"](n=1), b])], "same hash text, other name": [], "two writers": [], "frame": []}[kind]
+           "grouped, nothing known": [], "grouped, one member known": [a], "grouped, same names registered": [a, D["B"].__class__("c03/b", [("varint", "zz")])(zz=1)], "grouped twice, other members": [GroupedRecord("c03/grp", [D["G1"](n=1), b])], "same hash text, other name": [], "two writers": [], "frame": [], "write refused while packing, caller carries on": [], "names that differ only in '/' and '_'": []}[kind]
     if kind.startswith("nested"):
         rec = D["N"](r=a, rs=[a2, b])
     elif kind == "grouped twice, other members":
@@ -225,6 +225,39 @@ def c03_scenario(kind="new type", fmt="stream"):
         rec = GroupedRecord("c03/grp", [a, b, a2])
     else:
         rec = a
+    if kind == "names that differ only in '/' and '_'":
+        from flow.record import RecordDescriptor
+
+        names = ["c03/x_y", "c03/x/y", "c03_x/y", "c03/x_y"]
+        recs = [RecordDescriptor(nm, [("string", "s")])(s=str(i)) for i, nm in enumerate(names)]
+        created = [r._desc.name for r in recs]
+        if created != names:
+            return {"violates": True, "detail": f"records created through descriptors named {names} carry descriptors named {created}"}
+        w = _Writer(fmt)
+        for r in recs:
+            w.write(r)
+        try:
+            bad = _check_file(fmt, w.data(), w.written)
+        except Exception as e:
+            bad = f"reading back raised {type(e).__name__}: {e}"
+        return {"violates": bool(bad), "detail": bad}
+    if kind == "write refused while packing, caller carries on":
+        from flow.record import RecordDescriptor
+
+        DL = RecordDescriptor("c03/dl", [("dictlist", "dl"), ("varint", "n")])
+        w = _Writer(fmt)
+        try:
+            w.write(DL(dl=[{"k": {1, 2}}], n=1))
+            return {"violates": True, "detail": "a record holding an unpackable value was written"}
+        except Exception:
+            pass
+        w.write(DL(dl=[{"k": "v"}], n=2))
+        w.write(a)
+        try:
+            bad = _check_file(fmt, w.data(), w.written)
+        except Exception as e:
+            bad = f"after a refused write, reading back raised {type(e).__name__}: {e}"
+        return {"violates": bool(bad), "detail": bad}
     if kind == "two writers":
         w1, w2 = _Writer(fmt), _Writer(fmt)
         for w in (w1, w2, w1, w2):
